@@ -14,7 +14,7 @@ na = []
 for pid in sorted(props.PROPS):
     cfg = props.PROPS[pid]
     if not cfg.get("claimed"):
-        na.append({"property_id": pid, "reason": cfg.get("na_reason", "check not built yet in this round (planned, see DESIGN.md section 5)")})
+        na.append({"property_id": pid, "reason": cfg.get("na_reason", "check not built yet in this round (see DESIGN.md section 9)")})
         continue
     checks.append({
         "property_id": pid,
@@ -23,7 +23,7 @@ for pid in sorted(props.PROPS):
         "evidence_file": f"/verif/evidence/{pid}.json",
         "replay_cmd_template": f"./check {pid} --replay {{path}}",
         "engine": "mdvc",
-        "level_claimed": {"category": cfg["level"], "text": cfg["level_text"], "design_ref": f"DESIGN.md section 5 ({pid})"},
+        "level_claimed": {"category": cfg["level"], "text": cfg["level_text"], "design_ref": f"DESIGN.md section 4 ({pid})"},
         "level_note": cfg["level_note"],
         "technique": cfg["technique"],
     })
